@@ -155,6 +155,20 @@ pub fn run_lat_more(op: &str, a: &[Arg], st: &mut Stats) -> Option<Out> {
                 }
                 prev = Some(sk);
             }
+            // seeds / randomness that share a prefix (first 8, 16, 31 bytes) are different inputs
+            for share in [8usize, 16, 31] {
+                let s1 = b32(&mut r);
+                let mut s2 = b32(&mut r);
+                s2[..share].copy_from_slice(&s1[..share]);
+                let ((sk1, pk1), (sk2, pk2)) = (kem::keygen(s1), kem::keygen(s2));
+                let (k1, c1) = kem::enc(pk1, s1);
+                let (k2, c2) = kem::enc(pk2, s1);
+                let (k3, c3) = kem::enc(pk1, s2);
+                st.hit("bulkkem:same-prefix-seeds");
+                o = o.with_oracle(kem::dec(sk1, c1) == Some(k1) && kem::dec(sk2, c2) == Some(k2) && kem::dec(sk1, c3) == Some(k3), format!("round trip fails for seeds that share their first {share} bytes with an earlier seed of this process"))
+                    .with_oracle(kem::dec(sk2, c1).is_none() && kem::dec(sk1, c2).is_none(), format!("ciphertext accepted under the key generated from a seed sharing the first {share} bytes"))
+                    .with_oracle(c1 != c3 && k1 != k3 && c1 != c2, format!("encapsulations with randomness / keys sharing the first {share} bytes coincide"));
+            }
             st.hit(&format!("bulkkem:count>=2^{}", count.max(1).ilog2()));
             Out { reply: format!("ok:{}", count), oracle_fail: o.oracle_fail }
         }
